@@ -351,6 +351,17 @@ def mon_expect(run, script, il, iab, ml):
             expect = 1 if (fl & 0x08) and not (fl & 0x64) else 0
             if ntx != expect:
                 run.violation('LoRa transmit callback fired %d times for flags %02x (expected %d)' % (ntx, fl, expect), script)
+        elif kind == 'race' and P in ('C07',):
+            run.cov['monitor_checks'] += 1
+            want_rx, want_hops = int(args[0]), int(args[1])
+            nrx = len([c for c in cbs if c['kind'] == 'rx'])
+            nhop = sum(1 for f in irqs for e in spi_entries(f.get('spi')) if e['kind'] == 'W' and e['reg'] == 6)
+            if nrx != want_rx:
+                run.violation('the chip raised %d receive-done events (one of them between two transfers of a running handler), the application got %d receive callbacks' % (want_rx, nrx), script)
+            if nhop != want_hops:
+                run.violation('the chip raised a channel-change event between two transfers of a running handler; %d hops were performed, expected %d' % (nhop, want_hops), script)
+            if irqs and cb_entries(irqs[-1].get('cb')):
+                run.violation('callback from an interrupt invocation with nothing pending', script)
         elif kind == 'hoplist' and P == 'C16':
             hoplist = [int(x) for x in args[0].split(',')]
             hopk = 0
